@@ -146,6 +146,63 @@ theorem KeepE.set_helper (ctx : Ctx) (B lo j : Nat) (m : Cfg) (w : String) (hj :
    fun i => Sem.set_other _ _ _ _ (fun e => ctx.hn_ne_tn j i e.symm),
    fun n _ => Sem.set_other _ _ _ _ (fun e => ctx.hn_ne_flag j n e.symm)⟩
 
+/-! ### what the emitted lines may assign (static) -/
+
+/-- the variables a line assigns -/
+def lineTargets : Line → List String
+  | .assign n _ => [n]
+  | .assignArith n _ _ _ => [n]
+  | .assignTest n _ _ _ => [n]
+  | .localAssign n _ => [n]
+  | .forFlagInit k => [flagName k]
+  | .incrFlagSet k => [flagName k]
+  | _ => []
+
+/-- names the code of context `ctx` may assign: its helpers and temporaries, program variables, the return
+    registers, loop flags below `hi` -/
+def OwnT (ctx : Ctx) (hi : Nat) (x : String) : Prop :=
+  (∃ k, x = ctx.hn k) ∨ (∃ k, x = ctx.tn k) ∨ (∃ v g, goodName2 v = true ∧ x = ctx.mg v g) ∨ (∃ i, x = rvName i) ∨ (∃ n, n < hi ∧ x = flagName n)
+
+/-- a line of context `ctx`: assigns only what the context owns, calls only functions of `ds` -/
+def SLine (ctx : Ctx) (hi : Nat) (ds : List String) (l : Line) : Prop :=
+  (∀ x ∈ lineTargets l, OwnT ctx hi x) ∧ (∀ name args, l = .callFn name args → name ∈ ds)
+
+def LinesOK (ctx : Ctx) (hi : Nat) (ds : List String) (ls : List Line) : Prop := ∀ l ∈ ls, SLine ctx hi ds l
+
+theorem LinesOK.nil (ctx : Ctx) (hi : Nat) (ds : List String) : LinesOK ctx hi ds [] := fun _ h => by simp at h
+theorem LinesOK.cons {ctx : Ctx} {hi : Nat} {ds : List String} {l : Line} {ls : List Line} (h1 : SLine ctx hi ds l) (h2 : LinesOK ctx hi ds ls) :
+    LinesOK ctx hi ds (l :: ls) := fun x hx => by
+  simp only [List.mem_cons] at hx
+  rcases hx with rfl | hx
+  · exact h1
+  · exact h2 x hx
+theorem LinesOK.append {ctx : Ctx} {hi : Nat} {ds : List String} {a b : List Line} (h1 : LinesOK ctx hi ds a) (h2 : LinesOK ctx hi ds b) :
+    LinesOK ctx hi ds (a ++ b) := fun x hx => by
+  simp only [List.mem_append] at hx
+  rcases hx with hx | hx
+  · exact h1 x hx
+  · exact h2 x hx
+theorem LinesOK.reverse {ctx : Ctx} {hi : Nat} {ds : List String} {a : List Line} (h : LinesOK ctx hi ds a) : LinesOK ctx hi ds a.reverse :=
+  fun x hx => h x (List.mem_reverse.mp hx)
+theorem LinesOK.mono {ctx : Ctx} {hi hi' : Nat} {ds : List String} {a : List Line} (h : LinesOK ctx hi ds a) (hh : hi ≤ hi') : LinesOK ctx hi' ds a := by
+  intro l hl
+  obtain ⟨h1, h2⟩ := h l hl
+  refine ⟨fun x hx => ?_, h2⟩
+  rcases h1 x hx with h | h | h | h | ⟨n, hn, h⟩
+  · exact Or.inl h
+  · exact Or.inr (Or.inl h)
+  · exact Or.inr (Or.inr (Or.inl h))
+  · exact Or.inr (Or.inr (Or.inr (Or.inl h)))
+  · exact Or.inr (Or.inr (Or.inr (Or.inr ⟨n, by omega, h⟩)))
+
+/-- a line that assigns one helper variable -/
+theorem sline_helper (ctx : Ctx) (hi : Nat) (ds : List String) (l : Line) (k : Nat) (h1 : lineTargets l = [ctx.hn k]) (h2 : isCall l = false) :
+    SLine ctx hi ds l :=
+  ⟨fun x hx => by rw [h1] at hx; simp at hx; exact Or.inl ⟨k, hx⟩, fun name args e => by subst e; simp [isCall] at h2⟩
+
+theorem sline_plain (ctx : Ctx) (hi : Nat) (ds : List String) (l : Line) (h1 : lineTargets l = []) (h2 : isCall l = false) : SLine ctx hi ds l :=
+  ⟨fun x hx => by rw [h1] at hx; simp at hx, fun name args e => by subst e; simp [isCall] at h2⟩
+
 /-- the result of running the lines `new` (latest first) of an expression -/
 def RunsW (wv : Bool) (ctx : Ctx) (T : List FEntry) (B : Nat) (new : List Line) (lo n : Nat) (ts : List String) (m : Cfg) : R (List Opd) → Prop
   | .ok os c1 => ∃ m1, ExecCmds (new.reverse.map Cmd.simple) m .normal m1 ∧ Inv ctx T c1 m1 ∧ Ctl m m1 ∧
@@ -156,16 +213,18 @@ def RunsW (wv : Bool) (ctx : Ctx) (T : List FEntry) (B : Nat) (new : List Line) 
 abbrev Runs := RunsW true
 
 /-- the lines `new` do what the source-level evaluation `src` does -/
-def ESimW (wv : Bool) (ctx : Ctx) (T : List FEntry) (B : Nat) (src : Nat → SCfg → Option (R (List Opd))) (new : List Line) (lo n : Nat)
-    (ts : List String) : Prop :=
-  ∀ fuel c res, src fuel c = some res → ∀ m, Inv ctx T c m → RunsW wv ctx T B new lo n ts m res
+structure ESimW (wv : Bool) (ctx : Ctx) (T : List FEntry) (B : Nat) (src : Nat → SCfg → Option (R (List Opd))) (new : List Line) (lo n : Nat)
+    (ts : List String) : Prop where
+  lines : LinesOK ctx 0 (tnames T) new
+  run : ∀ fuel c res, src fuel c = some res → ∀ m, Inv ctx T c m → RunsW wv ctx T B new lo n ts m res
 
 abbrev ESim := ESimW true
 
 theorem ESimW.weaken {wv : Bool} {ctx : Ctx} {T : List FEntry} {B : Nat} {src : Nat → SCfg → Option (R (List Opd))} {new : List Line}
     {lo n : Nat} {ts : List String} (h : ESimW true ctx T B src new lo n ts) : ESimW wv ctx T B src new lo n ts := by
+  refine ⟨h.lines, ?_⟩
   intro fuel c res hs m hi
-  have := h fuel c res hs m hi
+  have := h.run fuel c res hs m hi
   cases res with
   | ok os c1 =>
     obtain ⟨m1, a, b, c', d, e⟩ := this
